@@ -53,7 +53,7 @@ func SendAccountDebitRequest(
 	select {
 	case m := <-ue.AcctChan:
 		var cca charging_datatype.AccountDebitResponse
-		if errMarshal := m.Unmarshal(&cca); err != nil {
+		if errMarshal := m.Unmarshal(&cca); errMarshal != nil {
 			return nil, fmt.Errorf("Failed to parse message from %v", errMarshal)
 		}
 
